@@ -228,7 +228,10 @@ where
                     if better {
                         a.first_violation = Some((rep.index, (*v).clone(), rep.log.clone(), rep.cfg.clone()));
                     }
-                    stop.store(true, Ordering::Relaxed);
+                    // KRPMON_NO_STOP=1 (validation runs only): keep going to collect every clause that fires
+                    if std::env::var_os("KRPMON_NO_STOP").is_none() {
+                        stop.store(true, Ordering::Relaxed);
+                    }
                 }
                 a.out.merge(rep.out);
             });
